@@ -328,6 +328,29 @@ func (e *env) nonEmptyUntouched(caseID string, s *store, rng *rand.Rand) {
 		}
 	}
 	before, err := snap.AllDigest(st.DB)
+	// every third time the database comes from the previous version of the service: its schema is one migration behind
+	// (the last migration, a set of column renames, is undone and the recorded schema version set back), so this start
+	// applies a migration before it looks at the prepared file
+	upgrade := rng.Intn(3) == 0
+	if upgrade && err == nil {
+		for _, q := range []string{
+			`ALTER TABLE headers RENAME COLUMN previous_block TO previousblock`,
+			`ALTER TABLE headers RENAME COLUMN cumulated_work TO cumulatedWork`,
+			`ALTER TABLE webhooks RENAME COLUMN token_header TO tokenHeader`,
+			`ALTER TABLE webhooks RENAME COLUMN created_at TO createdAt`,
+			`ALTER TABLE webhooks RENAME COLUMN last_emit_status TO lastEmitStatus`,
+			`ALTER TABLE webhooks RENAME COLUMN last_emit_timestamp TO lastEmitTimestamp`,
+			`ALTER TABLE webhooks RENAME COLUMN errors_count TO errorsCount`,
+			`ALTER TABLE webhooks RENAME COLUMN is_active TO active`,
+			`UPDATE schema_migrations SET version = 6, dirty = 0`,
+		} {
+			if _, qerr := st.DB.Exec(q); qerr != nil {
+				r.Count("nonempty_upgrade_variant_not_set_up", 1)
+				st.Close()
+				return
+			}
+		}
+	}
 	st.Close()
 	if err != nil {
 		r.Violate("harness|snapshot", err.Error(), caseID, nil)
@@ -357,6 +380,9 @@ func (e *env) nonEmptyUntouched(caseID string, s *store, rng *rand.Rand) {
 	res := e.importInto("C.db", file, s.checkpointAt(s.n-1))
 	if res.st != nil {
 		res.st.Close()
+	}
+	if upgrade {
+		holds += "+one-migration-behind"
 	}
 	detail := map[string]any{"history_hex": clipHist(s.hist), "database_holds": holds, "prepared_file": variant, "init_error": fmt.Sprint(res.err), "init_panic": fmt.Sprint(res.panic)}
 	after, err := allDigestFile(path)
